@@ -10,11 +10,11 @@ PROPS = {
     'C04': ['KIND', 'SIMMAP', 'COPYALL', 'LOOPBOUND', 'TUPLEPOS', 'FORWARD'],
     'C05': ['SIMMAP', 'KIND', 'LOOPBOUND', 'DRAIN', 'WORKLIST', 'SIZEEQ', 'COW', 'FORWARD'],
     'C07': ['DISPATCH', 'ACDUAL', 'FINCHK', 'MERGE', 'PARALLEL', 'COLLECTALL', 'CACHELIFE', 'SIBLING', 'FORWARD'],
-    'C08': ['UNIONCONTRIB', 'PRODUCT', 'WORKLIST', 'DRAIN', 'INIT', 'COLLECTALL', 'ARITY', 'TUPLEPOS', 'FORWARD'],
+    'C08': ['UNIONCONTRIB', 'PRODUCT', 'WORKLIST', 'DRAIN', 'INIT', 'COLLECTALL', 'ARITY', 'TUPLEPOS', 'LOADROLE', 'FORWARD'],
     'C09': ['DISPATCH', 'ACDUAL', 'FINCHK', 'MEMO', 'HASHEQ', 'ORDTOTAL', 'FORWARD'],
     'C10': ['UNIONCONTRIB', 'PRODUCT', 'PAIRFIELD', 'FINCHK', 'WORKLIST', 'DRAIN', 'PARAMPATH', 'COW', 'FORWARD'],
     'C11': ['COW', 'CLEARALL', 'HASHCONS', 'CACHELIFE'],
-    'C13': ['TEXT', 'PARAMPATH', 'PAIRFIELD', 'FORWARD'],
+    'C13': ['TEXT', 'LOADROLE', 'PARAMPATH', 'PAIRFIELD', 'FORWARD'],
     'C12': ['COW', 'HASHCONS', 'ITER', 'NONEMPTY', 'CLEARALL', 'PARAMPATH'],
     'C14': ['KIND', 'COW', 'FORWARD'],
     'C15': ['FINCHK', 'WORKLIST', 'DRAIN', 'KIND', 'HASHCONS', 'COW', 'FORWARD'],
@@ -55,6 +55,7 @@ FILTER = {
     ('C01', 'FINCHK'): r'explicit_tree_incl', ('C07', 'FINCHK'): r'up_tree_incl_fctor', ('C09', 'FINCHK'): r'explicit_finite_incl',
     ('C12', 'NONEMPTY'): r'explicit_tree',
     ('C01', 'FORWARD'): r'explicit_tree_aut', ('C02', 'FORWARD'): r'explicit_tree_aut', ('C03', 'FORWARD'): r'explicit_tree_aut', ('C04', 'FORWARD'): r'explicit_tree_aut', ('C05', 'FORWARD'): r'explicit_tree_aut', ('C14', 'FORWARD'): r'explicit_tree_aut', ('C15', 'FORWARD'): r'explicit_tree_aut', ('C09', 'FORWARD'): r'explicit_finite_aut', ('C10', 'FORWARD'): r'explicit_finite_aut', ('C07', 'FORWARD'): r'bdd_', ('C08', 'FORWARD'): r'bdd_',
+    ('C08', 'LOADROLE'): r'bdd_',
     ('C12', 'COW'): r'explicit_tree',
     ('C14', 'COW'): r'explicit_tree', ('C14', 'KIND'): r'explicit_tree|explicit_finite|bdd_',
     ('C19', 'KIND'): r'explicit_tree',
